@@ -50,7 +50,7 @@ def flags (mode : Nat) : Option (Bool × Bool) :=
 
 def handle : List String → String
   | ["selftest"] =>
-    match CryptoRef.selfTestFailures with
+    match CryptoRef.selfTestFailures ++ (if cbcCrossCheck then [] else ["cbc-list-vs-bytearray"]) with
     | [] => "ok"
     | l => " ".intercalate l
   | ["specsecure", pol, m, role, cn, sn, mt, flag, chan, tok, seq, req, k, body] =>
